@@ -91,13 +91,21 @@ def fn_plain(opset):
                            [h.make_opsetid("", opset)])
 
 
-FUNCS = {"stack": fn_stack, "twice": fn_twice, "red": fn_red, "shape": fn_shape, "plain": fn_plain}
+def fn_castlike(opset):
+    """CL(a, b): Cast<FLOAT>(CastLike(a, b)) — inside the body neither operand of CastLike has a known element type"""
+    return h.make_function("local", "CL", ["a", "b"], ["r"],
+                           [h.make_node("CastLike", ["a", "b"], ["r0"]), h.make_node("Cast", ["r0"], ["r"], to=1)],
+                           [h.make_opsetid("", opset)])
+
+
+FUNCS = {"stack": fn_stack, "twice": fn_twice, "red": fn_red, "shape": fn_shape, "plain": fn_plain, "castlike": fn_castlike}
 
 
 def function_models(rng, n):
     """Models calling 1-3 model-local functions; `main_touch` adds a foldable node to the main graph."""
     out = []
-    combos = [("stack",), ("twice",), ("red",), ("shape",), ("plain",), ("stack", "plain"), ("twice", "plain"), ("stack", "twice")]
+    combos = [("stack",), ("twice",), ("red",), ("shape",), ("plain",), ("stack", "plain"), ("twice", "plain"), ("stack", "twice"),
+              ("castlike",), ("castlike", "plain")]
     k = 0
     while len(out) < n:
         kinds = combos[k % len(combos)]
@@ -124,6 +132,11 @@ def function_models(rng, n):
                 nodes.append(h.make_node("Dims", ["x"], [o], domain="local", s=rng.choice([0, 1, 2])))
                 outs.append(vi(o, TP.FLOAT, [2, 3]))
                 refs_foldable = True
+            elif kind == "castlike":
+                # the call site decides the element types: a float, b int64 (truncation must survive the optimizer)
+                nodes.append(h.make_node("Cast", ["y"], [f"yi{j}"], to=TP.INT64))
+                nodes.append(h.make_node("CL", ["x", f"yi{j}"], [o], domain="local"))
+                outs.append(vi(o, TP.FLOAT, [2, 3]))
             else:
                 nodes.append(h.make_node("Lin", ["x", "y"], [o], domain="local"))
                 outs.append(vi(o, TP.FLOAT, [2, 3]))
